@@ -33,7 +33,42 @@ func isTokenTextField(x ssa.Value, idx int) bool {
 	case "Token":
 		return f == "Literal" || f == "Value"
 	}
-	return false
+	return rawTextFields[n.Obj().Name()+"."+f]
+}
+
+// rawTextFields: AST string fields ("Type.Field") that the parser fills with the text of a token as written (set only
+// while a rule that follows token text into the tree is running).
+var rawTextFields = map[string]bool{}
+
+// computeRawTextFields: string fields of pkg/sql/ast structs into which some parser function stores a value that is
+// (derived from) Token.Literal / Token.Value without case normalisation.
+func computeRawTextFields(p *core.Prog) map[string]bool {
+	out := map[string]bool{}
+	for _, fn := range p.SrcFuncs("pkg/sql/parser") {
+		for _, b := range fn.Blocks {
+			for _, in := range b.Instrs {
+				st, ok := in.(*ssa.Store)
+				if !ok {
+					continue
+				}
+				fa, ok := st.Addr.(*ssa.FieldAddr)
+				if !ok {
+					continue
+				}
+				n := core.NamedOf(fa.X.Type())
+				if n == nil || n.Obj().Pkg() == nil || !core.PathHasSuffix(n.Obj().Pkg().Path(), "pkg/sql/ast") {
+					continue
+				}
+				if bt, ok := st.Val.Type().Underlying().(*types.Basic); !ok || bt.Info()&types.IsString == 0 {
+					continue
+				}
+				if literalTaint(st.Val, 0, map[ssa.Value]bool{}) == rawLit {
+					out[n.Obj().Name()+"."+core.FieldName(fa.X.Type(), fa.Field)] = true
+				}
+			}
+		}
+	}
+	return out
 }
 
 func literalTaint(v ssa.Value, depth int, seen map[ssa.Value]bool) litTaint {
